@@ -183,7 +183,7 @@ def gen_payload(rng, dup_pool: bool, json_safe: bool):
 
 
 def gen_spec(rng, max_nodes=25, names="collide", hostile_outputs=False, dup_payloads=0.5, json_safe=False,
-             min_nodes=0, zero_output_sinks=0.5, prefix="") -> list[dict]:
+             min_nodes=0, zero_output_sinks=0.5, prefix="", clones=0.0) -> list[dict]:
     n = rng.randint(min_nodes, max_nodes) if rng.random() < 0.9 else rng.randint(min_nodes, max(min_nodes, 3))
     pool = list(NAME_POOL if names == "collide" else PLAIN_POOL)
     rng.shuffle(pool)
@@ -204,7 +204,20 @@ def gen_spec(rng, max_nodes=25, names="collide", hostile_outputs=False, dup_payl
             for iname in inames:
                 par = rng.choice(cands[-6:] if rng.random() < 0.6 else cands)
                 inputs[iname] = (par["name"], rng.choice(par["outputs"]))
-        spec.append({"name": nm, "outputs": outs, "payload": gen_payload(rng, rng.random() < dup_payloads, json_safe), "inputs": inputs})
+        payload = gen_payload(rng, rng.random() < dup_payloads, json_safe)
+        # near-duplicates: same payload, outputs and input names as an earlier node, one input reading another output of the same
+        # multi-output parent (or another parent) -- the pairs a de-duplication must keep apart
+        twins = [m for m in spec if m["inputs"] and any(len(next(x for x in spec if x["name"] == p)["outputs"]) > 1 for (p, _o) in m["inputs"].values())]
+        if twins and rng.random() < clones:
+            m = rng.choice(twins)
+            inputs = dict(m["inputs"])
+            cand = [i for i, (p, _o) in inputs.items() if len(next(x for x in spec if x["name"] == p)["outputs"]) > 1]
+            i = rng.choice(cand)
+            par = next(x for x in spec if x["name"] == inputs[i][0])
+            others = [o for o in par["outputs"] if o != inputs[i][1]]
+            inputs[i] = (par["name"], rng.choice(others))
+            outs, payload = list(m["outputs"]), m["payload"]
+        spec.append({"name": nm, "outputs": outs, "payload": payload, "inputs": inputs})
     for t in terminal_names(spec):
         node = next(x for x in spec if x["name"] == t)
         if rng.random() < zero_output_sinks and node["inputs"]:
